@@ -69,6 +69,28 @@ int for_each_behaviour(std::string const& path, std::size_t skip
 	return 0;
 }
 
+std::FILE* open_trace(std::string const& path, std::size_t skip)
+{
+	if (skip > 0)
+	{
+		std::ifstream in(path, std::ios::binary);
+		std::string all((std::istreambuf_iterator<char>(in)), std::istreambuf_iterator<char>());
+		in.close();
+		std::size_t keep = 0, pos = 0;
+		while (pos < all.size())
+		{
+			std::size_t nl = all.find('\n', pos);
+			if (nl == std::string::npos) break;
+			if (all.compare(pos, 10, "{\"e\":\"End") == 0 || all.compare(pos, 14, "{\"e\":\"Abandon") == 0) keep = nl + 1;
+			pos = nl + 1;
+		}
+		std::FILE* f = std::fopen(path.c_str(), "w");
+		if (f && keep) std::fwrite(all.data(), 1, keep, f);
+		return f;
+	}
+	return std::fopen(path.c_str(), "w");
+}
+
 tracer::tracer(std::string const& path)
 {
 	f = std::fopen(path.c_str(), "w");
